@@ -66,6 +66,13 @@ type Scenario struct {
 	// the scheduler draws from SchedSeed and records its choices here.
 	Sched     []int  `json:"sched,omitempty"`
 	SchedSeed uint64 `json:"sched_seed,omitempty"`
+	// Before lists scenarios executed first, in the same process, with their
+	// own results ignored. It is only filled when a violation does not
+	// reproduce from a pristine process, i.e. when the code under test keeps
+	// state outside the objects the simulator resets between runs (a
+	// package-level memo table, say): the earlier runs are then part of the
+	// history that makes the violation happen, and of its replay file.
+	Before []*Scenario `json:"before,omitempty"`
 }
 
 func (s *Scenario) Clone() *Scenario {
@@ -79,6 +86,7 @@ func (s *Scenario) Clone() *Scenario {
 func (s *Scenario) Hash() uint64 {
 	c := *s
 	c.Sched = nil
+	c.Before = nil
 	c.Seed, c.Run = 0, 0
 	b, _ := json.Marshal(&c)
 	return HashString(string(b))
@@ -313,7 +321,16 @@ func genSubject(r *Rng) string {
 	return string(b)
 }
 
+// ReplPool: replacement strings shared between operations. Depending on the
+// pattern's group count some of them name a group the pattern does not have;
+// the executor then runs the call but does not judge its result (the statement
+// is silent there) - such a call is legal history for the calls that follow.
+var ReplPool = []string{"$1$2x", "<$1$2x>", "$2y$1", "[$10]", "$1x", "$3z$1", "$2$1", "$1"}
+
 func genRepl(r *Rng, groups int) string {
+	if r.Chance(1, 3) {
+		return r.Pick(ReplPool)
+	}
 	out := ""
 	for k := r.Range(0, 3); k > 0; k-- {
 		if groups > 0 && r.Chance(1, 2) {
